@@ -12,6 +12,7 @@ var zzC04Alpha = [][]zzOp{
 	{ // 0: methods added after other registrations split the node
 		zzH("/p/au", "GET"), zzH("/p/ab", "GET"), zzH("/p/au", "POST"), zzH("/p/a{x}", "DELETE"), zzH("/p", "PUT", "PATCH"),
 		zzRm("/p/au"), zzRm("/p/au", "POST"), zzRm("/p/ab", "PUT", "TRACE"), zzRm("/p/au", "GET"), zzCl(),
+		zzRm("/p"), // all methods of an inner node whose descendants stay live
 	},
 	{ // 1: parameters that split, removal of everything, prefix clean, Any
 		zzH("/{a}/x", "GET"), zzH("/{a}/y", "POST"), zzH("/{a}/x", "DELETE"), zzH("/k", "GET", "POST", "DELETE", "PUT", "PATCH", "CONNECT"),
